@@ -20,10 +20,13 @@ def oracle(rec):
 
 def run(rep, tier, seed):
     n = size(tier, 100, 2000)
-    for name, quant in (("fol-qf", False), ("quant", True)):
-        progs = [streams.gen_fol_program(seed + 11, k, quant=quant, crossed_p=0.05) for k in range(n)]
+    for name, quant, par in (("fol-qf", False, True), ("quant", True, True), ("qparent", True, 1.0)):
+        progs = [streams.gen_fol_program(seed + 11, k, quant=quant, crossed_p=0.05, mid_facts=0.1, parents=par)
+                 for k in range(n if par is True else n // 2)]
         for p in progs:
             p["ops"] = list(p["ops"]) + [("passup",), ("passup",), ("passdown",), ("passdown",)]
+        if name == "qparent":
+            progs = streams.corpus_fol("C13") + progs          # minimised past failures run first
         recs, first = streams.run_fol_stream(rep, name, progs, {"tables", "reported"})
         for r in recs:
             if "crash" in r:
